@@ -126,4 +126,4 @@ def check(run):
             run.violation('R3', 'remote-endpoint-internal-use', '%s calls remote_endpoint()' % top.norm, fn.loc(c),
                           'the library core uses the NAT-visible peer endpoint internally (%s): routing, MTU and matching must use the true endpoints, otherwise a NAT changes more than what is reported' % top.norm)
     run.ok('R3', 'remote-endpoint-internal-use', 'scan', '', 'core classes never call remote_endpoint() on their own behalf', nontrivial=False)
-    run.floor('R2', 6)
+    run.floor('R2', 4)
